@@ -1,6 +1,10 @@
 (* Shared, unverified glue of the correspondence driver: PRNG, conversions, JSON lines. *)
 open Model
 
+(* property generators register themselves here (module initialisation; dune links every module) *)
+let registry : (string, seed:int -> tier:string -> out_channel -> unit) Hashtbl.t = Hashtbl.create 32
+let register id f = Hashtbl.replace registry id f
+
 (* ---- splitmix64: every random choice of a run derives from VERIF_SEED ---- *)
 type rng = { mutable s : int64 }
 let mk_rng (seed : int) = { s = Int64.of_int seed }
